@@ -424,7 +424,8 @@ pub fn run(tier: Tier, replay: Option<&str>) {
     let mut groups_a = vec![];
     for mtype in 2..=5u8 {
         for flags in 0..16u8 {
-            for fol in 0..=17usize {
+            // (forbidden lengths beyond 17: around the points where a length kept in 4, 5 or 8 bits would wrap)
+            for fol in (0..=17usize).chain([31, 32, 33, 255, 256, 257, 263, 270, 271, 272, 300, 511, 512, 527]) {
                 groups_a.push((mtype, flags, fol));
             }
         }
@@ -618,7 +619,7 @@ pub fn run(tier: Tier, replay: Option<&str>) {
     let coverage = json!({
         "evaluations": ctx.evals(),
         "distinct_nontrivial": nontrivial.load(Ordering::Relaxed),
-        "rule": "four full cartesian sub-products, each tuple a distinct frame description: (A) MType(4) x 16 flag combinations x FOpts length 0..=17 x payload kind(7: none / Data ports 1,2,223,224,255 / MacCommands) x boundary lengths x counters x addresses x key pairs x crypto variant(2) x buffer size(exact, exact-1, large) x app key present/withheld; (B) every payload length 0..=242 x FOpts {0,1,15} x MType x kind(3) x counters x addresses x key pairs x contents x crypto variant; (C) JoinRequest: all 65536 DevNonce x EUI patterns x keys x crypto x buffer; (D) JoinAccept: all 256 DLSettings x RxDelay set x 9 CFList variants x nonce/netid/addr boundary sets x keys x buffer. non-trivial = description that must yield a frame (compared byte for byte); the rest must be refused",
+        "rule": "four full cartesian sub-products, each tuple a distinct frame description: (A) MType(4) x 16 flag combinations x FOpts length 0..=17 and forbidden lengths up to 527 (31..33, 255..257, 263, 270..272, 300, 511, 512, 527) x payload kind(7: none / Data ports 1,2,223,224,255 / MacCommands) x boundary lengths x counters x addresses x key pairs x crypto variant(2) x buffer size(exact, exact-1, large) x app key present/withheld; (B) every payload length 0..=242 x FOpts {0,1,15} x MType x kind(3) x counters x addresses x key pairs x contents x crypto variant; (C) JoinRequest: all 65536 DevNonce x EUI patterns x keys x crypto x buffer; (D) JoinAccept: all 256 DLSettings x RxDelay set x 9 CFList variants x nonce/netid/addr boundary sets x keys x buffer. non-trivial = description that must yield a frame (compared byte for byte); the rest must be refused",
         "samples": samples,
         "exhaustive": true,
         "sub_products": ["header", "length", "joinrequest", "joinaccept"],
